@@ -20,7 +20,8 @@ vars == <<kinds, tab>>
 (* the columnar schema cannot tell it from "no version"                                                      *)
 UT(ks) == {x \in KeysOf("crdb", Alphabet, MaxPLen, W, L) : x.v.t \in ks /\ x.p # <<>>
                                                               /\ ~(x.v.t = "mvcc" /\ x.v.w = 0 /\ x.v.l = 0)}
-Init == kinds \in {{"none", "mvcc"}, {"none", "lock"}} /\ tab = <<>>
+(* blocks of MVCC versions only / lock-table versions only take the KeySeeker's fast paths *)
+Init == kinds \in {{"none", "mvcc"}, {"none", "lock"}, {"mvcc"}, {"lock"}} /\ tab = <<>>
 Between(x, y) == {z \in UT(kinds) : Cmp(x, z) < 0 /\ Cmp(z, y) < 0}
 Add == /\ Len(tab) < MaxKeys
        /\ \E x \in UT(kinds) :
@@ -43,6 +44,7 @@ SeekSane == /\ StrictlySorted(tab)
             /\ \A k \in UT(kinds) :
                  /\ Cardinality(GEIdx(tab, k)) + Cardinality(LTIdx(tab, k)) = Len(tab)
                  /\ (SeekGE(tab, k) # <<>> /\ SeekLT(tab, k) # <<>>) => Cmp(SeekLT(tab, k)[1], SeekGE(tab, k)[1]) < 0
-EmitTab == (Emit /\ Len(tab) = MaxKeys) => PrintT(ToJson([tab |-> tab, probes |-> UT(kinds)]))
+Done == Len(tab) = MaxKeys \/ (Len(tab) >= 2 /\ ~\E x \in UT(kinds) : Cmp(tab[Len(tab)], x) < 0)
+EmitTab == (Emit /\ Done) => PrintT(ToJson([tab |-> tab, probes |-> UT(kinds)]))
 EmitInv == EmitTab \/ TRUE
 =============================================================================
